@@ -30,7 +30,13 @@ def make_body(kind, p, T):
     from distance3d import hydroelastic_contact as hc
     T = np.array(T, dtype=float, order="C")
     if kind == "sphere":
-        return hc.RigidBody.make_sphere(T[:3, 3].copy(), p["radius"], p["order"])
+        if np.array_equal(T[:3, :3], np.eye(3)):
+            return hc.RigidBody.make_sphere(T[:3, 3].copy(), p["radius"], p["order"])
+        # make_sphere only takes a centre; a rotated sphere body (its mesh is not rotationally symmetric) is built
+        # with the public constructor from the factory's mesh
+        from distance3d.hydroelastic_contact._tetra_mesh_creation import make_tetrahedral_sphere
+        V, tets, pot = make_tetrahedral_sphere(p["radius"], p["order"])
+        return hc.RigidBody(T, V, tets, pot)
     if kind == "ellipsoid":
         return hc.RigidBody.make_ellipsoid(T, np.array(p["radii"], float), p["order"])
     if kind == "cube":
